@@ -550,7 +550,7 @@ func (i *Interpreter) ExecuteRoute(route *Route, request *Request) (*Response, e
 	}
 
 	// Bind query params as 'query' object
-	routeEnv.Define("query", queryParams)
+	routeEnv.DefineWithSource("query", queryParams, BindingRequest)
 
 	// Also bind declared query params directly as variables
 	for _, decl := range route.QueryParams {
@@ -613,10 +613,10 @@ func (i *Interpreter) ExecuteRoute(route *Route, request *Request) (*Response, e
 				}
 			}
 		}
-		routeEnv.Define("input", inputValue)
+		routeEnv.DefineWithSource("input", inputValue, BindingRequest)
 	} else {
 		// Define input as nil/empty map for routes without body
-		routeEnv.Define("input", nil)
+		routeEnv.DefineWithSource("input", nil, BindingRequest)
 	}
 
 	// Bind request headers as 'headers' object so route handlers can
@@ -626,7 +626,7 @@ func (i *Interpreter) ExecuteRoute(route *Route, request *Request) (*Response, e
 	for k, v := range request.Headers {
 		headersMap[k] = v
 	}
-	routeEnv.Define("headers", headersMap)
+	routeEnv.DefineWithSource("headers", headersMap, BindingRequest)
 
 	// Handle dependency injections
 	for _, injection := range route.Injections {
@@ -650,7 +650,7 @@ func (i *Interpreter) ExecuteRoute(route *Route, request *Request) (*Response, e
 		if request.AuthData != nil {
 			authData = request.AuthData
 		}
-		routeEnv.Define("auth", authData)
+		routeEnv.DefineWithSource("auth", authData, BindingRequest)
 	}
 
 	// For SSE routes (SSE constant defined in ast.go), inject the writer
